@@ -252,10 +252,61 @@ pub fn check_builder_paths(ctx: &mut Ctx, p: &Program, all_short: bool) {
     }
 }
 
+/// The one built-in attribute with a mutating method (`UnknownAttributes::add_attribute`): every
+/// serialisation path must follow the value as it is *now*, whatever was serialised before.
+fn check_mutated_unknown_attributes(ctx: &mut Ctx, initial: &[u16], additions: &[u16]) {
+    use stun_types::attribute::UnknownAttributes;
+    let init: Vec<AttributeType> = initial.iter().map(|t| AttributeType::new(*t)).collect();
+    let mut ua = UnknownAttributes::new(&init);
+    let mut model: Vec<u16> = initial.to_vec();
+    let w = || json!({"kind": "unknown-attributes-mutation", "initial": initial, "additions": additions});
+    for (step, t) in additions.iter().enumerate() {
+        // serialise through every path first (so that anything memoised is filled), then mutate
+        check_writer(ctx, "UNKNOWN-ATTRIBUTES(mutated)", &ua, model.len() * 2, &w, false);
+        let _ = guard(|| {
+            let _ = ua.to_raw().to_bytes();
+            let _ = RawAttribute::from(&ua).to_bytes();
+        });
+        let before = model.contains(t);
+        if guard(|| ua.add_attribute(AttributeType::new(*t))).is_err() {
+            ctx.violation("C12", "no-panic", "UnknownAttributes::add_attribute", "", &w, "returns".into(), "panic".into());
+            return;
+        }
+        if !before {
+            model.push(*t);
+        }
+        let has = ua.has_attribute(AttributeType::new(*t));
+        if !has {
+            ctx.violation("C12", "mutation-visible", "UnknownAttributes::has_attribute", "", &w, "true after add_attribute".into(), format!("false at step {step}"));
+            return;
+        }
+        ctx.count("attribute-mutations");
+    }
+    check_writer(ctx, "UNKNOWN-ATTRIBUTES(mutated)", &ua, model.len() * 2, &w, false);
+    // and the wire value lists exactly the model's types in order
+    let got = guard(|| ua.to_raw().value.to_vec()).unwrap_or_default();
+    let want: Vec<u8> = model.iter().flat_map(|t| t.to_be_bytes()).collect();
+    if got != want {
+        ctx.violation("C12", "mutation-visible", "UnknownAttributes::to_raw", "stale-serialisation", &w, hex(&want), hex(&got));
+    }
+}
+
 pub fn run(ctx: &mut Ctx) {
     let quick = ctx.tier == Tier::Quick;
     let tid = [0x5cu8; 12];
     let mut idx = 0u64;
+    // ---- mutation between serialisations ----
+    for n0 in 0..6usize {
+        for nadd in 1..5usize {
+            idx += 1;
+            if !ctx.mine(idx) {
+                continue;
+            }
+            let initial: Vec<u16> = (0..n0).map(|i| 0x7001 + i as u16).collect();
+            let additions: Vec<u16> = (0..nadd).map(|i| if i == 2 { 0x7001 } else { 0x7100 + (n0 * 8 + i) as u16 }).collect();
+            check_mutated_unknown_attributes(ctx, &initial, &additions);
+        }
+    }
     // ---- raw attributes of length 0..=763 (every padding residue, dirty destinations) ----
     for len in 0..=763usize {
         idx += 1;
